@@ -14,13 +14,19 @@ Record func_case := mkFC {
   fc_steps : list (Z * list (nat * float));
   fc_expected : list (Z * list (labels * float)) }.
 
-(* math.Max / math.Min: an infinity of the right sign wins even over NaN *)
+(* math.Max / math.Min: an infinity of the right sign wins even over NaN; of two
+   zeros Max returns the positive one if there is one, Min the negative one *)
+Definition fneg_zero (x : float) : bool := PrimFloat.eqb x 0 && PrimFloat.ltb (1 / x) 0.
 Definition fmax (x y : float) : float :=
   if PrimFloat.eqb x infinity || PrimFloat.eqb y infinity then infinity
-  else if PrimFloat.is_nan x || PrimFloat.is_nan y then nan else if PrimFloat.ltb x y then y else x.
+  else if PrimFloat.is_nan x || PrimFloat.is_nan y then nan
+  else if PrimFloat.eqb x 0 && PrimFloat.eqb y 0 then (if fneg_zero x then y else x)
+  else if PrimFloat.ltb x y then y else x.
 Definition fmin (x y : float) : float :=
   if PrimFloat.eqb x neg_infinity || PrimFloat.eqb y neg_infinity then neg_infinity
-  else if PrimFloat.is_nan x || PrimFloat.is_nan y then nan else if PrimFloat.ltb y x then y else x.
+  else if PrimFloat.is_nan x || PrimFloat.is_nan y then nan
+  else if PrimFloat.eqb x 0 && PrimFloat.eqb y 0 then (if fneg_zero x then x else y)
+  else if PrimFloat.ltb y x then y else x.
 
 (* binary/scalar.go: the value of a comparison is the vector operand's *)
 Definition sop (code : N) (vec_left : bool) (l r : float) : float * bool :=
